@@ -441,17 +441,17 @@ theorem formatType_eq_spec (a : Arg) (f : FormatSpec) (ha : a.InRange) (hf : Spe
     simp only [formatType, Render.renderField, Outcome.map]
     rw [formatString_flatten f hf _ ha]
   | nullStr => simp [formatType, Render.renderField, Outcome.map]
-  | wide src us =>
+  | wide src m us =>
     obtain ⟨hsrc, hlen⟩ := ha
     have hs : src = .utf16 ∨ src = .utf32 := by rcases hsrc with ⟨h, _⟩ | ⟨h, _⟩ <;> simp [h]
-    have hconv : Utf.stringFrom src .checkValidity (some us) = Utf.convert src .utf8 .checkValidity true (some us) := by
+    have hconv : Utf.stringFrom src m (some us) = Utf.convert src .utf8 m true (some us) := by
       rcases hs with rfl | rfl <;> rfl
-    have href : Utf.convert src .utf8 .checkValidity true (some us) = Unicode.reference src .utf8 .checkValidity true us := by
+    have href : Utf.convert src .utf8 m true (some us) = Unicode.reference src .utf8 m true us := by
       rcases hsrc with ⟨rfl, hu⟩ | ⟨rfl, hu⟩
-      · exact StVerif.Lemmas.Utf.convert_eq_reference .utf16 .utf8 (by decide) .checkValidity true us hu hlen
-      · exact StVerif.Lemmas.Utf.convert_eq_reference .utf32 .utf8 (by decide) .checkValidity true us hu hlen
+      · exact StVerif.Lemmas.Utf.convert_eq_reference .utf16 .utf8 (by decide) m true us hu hlen
+      · exact StVerif.Lemmas.Utf.convert_eq_reference .utf32 .utf8 (by decide) m true us hu hlen
     simp only [formatType, Render.renderField, hconv]
-    cases hc : Utf.convert src .utf8 .checkValidity true (some us) with
+    cases hc : Utf.convert src .utf8 m true (some us) with
     | ok bs =>
       have hb : bs.length < 2 ^ 31 := by
         have := StVerif.Lemmas.Utf.convert_wide_utf8_length_le src hs _ _ us bs hc
